@@ -6,7 +6,7 @@ from concurrent.futures import ProcessPoolExecutor
 
 from vf.core import Report, Bounded, Violation, Ob
 
-LEVEL = "exploration"
+LEVEL = "other"
 ABI_TYPES = ["uint64", "string", "bool", "byte[2]", "(uint8,string)", "address", "uint16[]", "uint8"]
 KNOWN_KEY = "O14.2:more-than-15-plain-args-not-packed"
 
@@ -178,7 +178,15 @@ def type_rejections(report):
 
 def run(report: Report, tier, seed):
     report.trust("algosdk.abi", "spec/avm.py (itxn_begin / itxn_field / itxn_next / itxn_submit recording)", "ARC-4 calling convention as written in checks/c14.py")
-    report.assume("bounded stand-in over generated signatures; the single loop of MethodCall is not yet under a pyvc contract")
+    report.assume("under contract (pyvc): InnerTxnBuilder.MethodCall - for every signature and argument list the returned Seq has the documented shape, transaction arguments come first in order, "
+                  "reference arguments are appended to their foreign array in order and passed as uint8 index (accounts / applications: position + 1, assets: position), plain arguments follow the selector in order",
+                  "callee summaries: SetField / SetFields / Next / Seq / MethodSignature / Bytes / uint8 encode are pure record constructors; require_type may raise; type_spec_is_assignable_to, "
+                  "type_spec_from_algosdk, type_specs_from_signature are uninterpreted (property C19 covers their meaning); type-spec equality and `match` class patterns follow the classes of the real objects",
+                  "NOT covered by the contract: run-time values, what the constructors emit, tuple packing beyond 15 arguments (MethodCall has none: known finding) - bounded stand-in below")
+    from vf.runner import run_contracts
+    from vf.core import use_repo
+    use_repo()
+    run_contracts(report, [("contracts.c14_methodcall", "MethodCall", "O14.1")])
     type_rejections(report)
     n = 60 if tier == "quick" else 800
     jobs = [(seed * 7919 + i, [6, 7, 8, 9, 10][i % 5], i % 5 == 0) for i in range(n)]
@@ -189,8 +197,12 @@ def run(report: Report, tier, seed):
     report.bounded.append(Bounded(function="InnerTxnBuilder.MethodCall executed on the spec AVM", contract="selector first, plain arguments ARC-4 encoded in order (15th+ packed), reference arguments appended to the foreign arrays and passed as their one-byte index, transaction arguments as preceding inner transactions in order",
                                   bound=f"{n} generated signatures (seed {seed}; 0..20 arguments of plain / reference / transaction kinds) x versions 6..10",
                                   cases=sum(r["ran"] for r in res), distinct_nontrivial=len(jobs), failures=len(bad) + len(known)))
-    report.extra["explanation"] = "bounded stand-in + rejection probes"
-    report.settle_refuted(None)
+    report.extra["explanation"] = "P: MethodCall marshalling contract (pyvc); E: rejection probes; B: generated signatures executed on the spec AVM"
+    srch = lambda fn, obs: ({"input": {"seed": bad[0]["seed"], "version": bad[0]["version"], "big": bad[0]["big"]}, "what": bad[0]["problems"][0]} if bad else None)
+    report.settle_undecided(srch)
+    report.settle_refuted(srch)
+    if any(o.status == "refuted" for o in report.obs):
+        bad = bad[:0]
     if known:
         k = known[0]
         report.violation(Violation(key=KNOWN_KEY, what=k["known"][0][:300], replay={"input": {"seed": k["seed"], "version": k["version"], "big": k["big"]}}, confirmed_native=True))
@@ -200,7 +212,8 @@ def run(report: Report, tier, seed):
 
 
 def replay(data):
-    inp = (data.get("replay") or {}).get("input")
+    r = data.get("replay") or {}
+    inp = (r.get("native") or {}).get("input") or r.get("input")
     if not inp:
         return 1
     out = case((inp["seed"], inp["version"], inp["big"]))
